@@ -181,6 +181,7 @@ type RunResult struct {
 	Signaled bool
 	Panicked bool
 	Reads    []string // with strace: paths whose content was read
+	Steps    [][2]string // filled by callers that parse a step log
 	WallS    float64
 }
 
